@@ -112,6 +112,15 @@ func (v *vault) script(kind int) []byte {
 	return v.redeem
 }
 
+// ownAddress is the vault's own pay-to-witness-script-hash address (what its change is paid to).
+func (v *vault) ownAddress() string {
+	a, err := btcutil.NewAddressWitnessScriptHash(v.lock[2:], regtest)
+	if err != nil {
+		panic(err)
+	}
+	return a.EncodeAddress()
+}
+
 // sign returns DER signatures (RFC 6979, deterministic) of hash by the vault's first k keys,
 // starting at key `from`.
 func (v *vault) sign(hash []byte, from, k int) [][]byte {
@@ -314,6 +323,9 @@ func (c *btcChain) depositTx(v *vault, kind int, value int64, toChain uint64) *w
 	args = append(args, prev[:20]...)
 	data := append([]byte{0xcc}, args...)
 	tx.AddTxOut(wire.NewTxOut(0, append([]byte{txscript.OP_RETURN, byte(len(data))}, data...)))
+	if c.ctr%4 == 1 { // a second output to the same vault: the handler only records output 0 of a deposit
+		tx.AddTxOut(wire.NewTxOut(value/2+7, v.script(kind+1)))
+	}
 	if c.ctr%2 == 0 { // sender's change
 		tx.AddTxOut(wire.NewTxOut(1000+int64(c.ctr), append(append([]byte{txscript.OP_DUP, txscript.OP_HASH160, 20}, prev[:20]...), txscript.OP_EQUALVERIFY, txscript.OP_CHECKSIG)))
 	}
